@@ -5,7 +5,7 @@ import json, subprocess, os
 CLAIMED = {
  "C04": dict(
   text="Deductive proof (govc: go/ssa -> SMT-LIB, z3/cvc5) of contracts on the real functions: every Bounds()/Len() equals a fold spec over the stored vertices in exact IEEE-754 (SMT FP theory, incl. -0 and +-Inf); the box predicates Extend/Overlaps/Empty/box-box Intersection against point-set specs in extended reals (+-Inf and NaN modelled, signed zero not distinguished: they only compare); and the step contract of every slice-shaped iterator (yields flatAt(g,pos), pos+1, never out of range while pos < Len) with inductive loop invariants and termination measures; unbounded in sizes and values.",
-  note="Trusted: govc translation (A-ENGINE), solvers (A-SMT), math.Min/Max per Go doc, int as mathematical integers (A-INT). History quantifier (n calls of the iterator) by induction over the proved one-step contract (paper, A-HIST). Not yet under contract: GeometryCollection iterator/Bounds (interface dispatch), tightness lemmas fold=least box are stated for slices only.",
+  note="Trusted: govc translation (A-ENGINE), solvers (A-SMT), math.Min/Max per Go doc, int as mathematical integers (A-INT). History quantifier (n calls of the iterator) by induction over the proved one-step contract (paper, A-HIST). Not under contract: the step function of GeometryCollection's iterator (it drives inner iterators through dynamically dispatched closures; only creation, Len and member indexing are proved) and GeometryCollection.Bounds; 'fold of min/max = least enclosing box' is not a separate lemma.",
   design="DESIGN.md §3 C04"),
 }
 
